@@ -742,6 +742,21 @@ func (e *Enc) compileCallExpr(c *SpecCtx, x *Expr) CE {
 		}
 		dom := e.get(c.st, e.mapKey(mt, "dom"), e.mapSort(mt, "dom"))
 		return CE{T: fmt.Sprintf("(select (select %s %s) %s)", dom, m.T, k.T), Typ: tBool}
+	case "get": // get(m, k): the value stored under k, read WITHOUT the absent-key default (meaningful under has(m, k)); keeps `ite` out of quantifier triggers
+		argn(2)
+		m := e.compile(c, x.Args[0])
+		k := e.compile(c, x.Args[1])
+		if m.Typ != nil {
+			if _, ok := m.Typ.Underlying().(*types.Pointer); ok {
+				m = e.deref(c, m)
+			}
+		}
+		mt, ok := m.Typ.Underlying().(*types.Map)
+		if !ok {
+			fail("%s: get() on non-map", c.what)
+		}
+		val := e.get(c.st, e.mapKey(mt, "val"), e.mapSort(mt, "val"))
+		return e.typedRead(c, CE{T: fmt.Sprintf("(select (select %s %s) %s)", val, m.T, k.T), Typ: mt.Elem()})
 	case "typeis": // typeis(x, "int64"): dynamic type of an interface value
 		argn(2)
 		a := e.compile(c, x.Args[0])
